@@ -56,8 +56,9 @@ Proof. unfold acks_for. cbn [filter fst]. rewrite N.eqb_refl. cbn. apply app_nil
 (* a step that leaves the replicas of a client alone, may move or drop what is on its way, and changes
    the server only in ways the invariant does not read *)
 Lemma vslot_mono (SN SN' : N -> N -> server -> Prop) y y' regs slot c c' :
-  (forall t r s1, SN t r s1 -> SN' t r s1) ->
+  (forall t r s1, SN t r s1 -> SN' t r s1) -> (forall t r s1, SN' t r s1 -> SN t r s1) ->
   (forall e, dead (y_server y) e -> dead (y_server y') e) -> sv_tick (y_server y) <= sv_tick (y_server y') ->
+  sv_now (y_server y) <= sv_now (y_server y') ->
   (cl_status c = Connected -> forall cl', In cl' (sv_clients (y_server y')) -> sc_slot cl' = slot ->
      exists cl, In cl (sv_clients (y_server y)) /\ sc_slot cl = slot /\ sc_ticks cl' = sc_ticks cl /\
                 (sc_authorized cl' = false -> sc_authorized cl = false)) ->
@@ -68,20 +69,22 @@ Lemma vslot_mono (SN SN' : N -> N -> server -> Prop) y y' regs slot c c' :
   (forall i, In i (acks_of y' slot) -> In i (acks_of y slot)) ->
   vslot_inv SN y regs slot c -> vslot_inv SN' y' regs slot c'.
 Proof.
-  intros Hsn Hdead Htk Hrec Est E1 E2 E3 E4 E5 Hp Hm Ha [V1 V2 V3]. constructor.
+  intros Hsn Hback Hdead Htk Hnw Hrec Est E1 E2 E3 E4 E5 Hp Hm Ha [V1 V2 V3]. constructor.
   - intros Hd. rewrite Est in Hd. destruct (V1 Hd) as (A & B & C & D). rewrite E1, E5. split; [exact A|]. split; [exact B|]. split; [|exact D].
     destruct (acks_of y' slot) as [|i t] eqn:E; [reflexivity|]. exfalso. specialize (Ha i (or_introl eq_refl)). rewrite C in Ha. destruct Ha.
   - intros Hc. rewrite Est in Hc. rewrite (Hp Hc). apply (cli_inv_muts SN' _ _ _ (muts_of y slot c)); [exact (Hm Hc)|].
-    apply (cli_inv_srv SN SN' (y_server y)); [exact Hsn|exact Hdead|].
+    apply (cli_inv_srv SN SN' (y_server y)); [exact Hsn|intros t r s0 H0; left; exact (Hback _ _ _ H0)|exact Hdead|].
     apply (cli_inv_ext SN (y_server y) c c'); try assumption. exact (V2 Hc).
   - intros Hc cl' Hin Hs. rewrite Est in Hc. destruct (Hrec Hc cl' Hin Hs) as (cl & Hin0 & Hs0 & Et & Eau).
     destruct (V3 Hc cl Hin0 Hs0) as (A & B & C). split; [|split; [rewrite Et; exact B|intros Hu; rewrite Et; exact (C (Eau Hu))]].
     rewrite (Hp Hc). apply (srv_slot_ticks SN' _ cl cl'); [exact Et|].
     apply (srv_slot_sub SN' _ cl c' _ (muts_of y slot c) (acks_of y slot)); [exact (Hm Hc)|exact Ha|].
-    apply (srv_slot_srv SN SN' (y_server y)); [exact Hsn|exact Hdead|exact Htk|].
+    apply (srv_slot_srv SN SN' (y_server y)); [exact Hsn|intros e0 a0 t0 r0 s0 _ H0 _; exact (Hback _ _ _ H0)|exact Hdead|exact Htk|exact Hnw|].
     apply (srv_slot_mono SN (y_server y) cl c (pend_of y slot c) (muts_of y slot c) (acks_of y slot) (y_server y) c' (pend_of y slot c));
-      [reflexivity|auto| |exact A].
-    intros g e a. apply (conf_since_cg SN). intros t. apply cg_ext. intros e0. apply centof_ext; assumption.
+      [reflexivity|reflexivity|auto| | | |exact A].
+    + intros g e a. apply (conf_since_cg SN). intros t. apply cg_ext. intros e0. apply centof_ext; assumption.
+    + rewrite (client_struct_ext c c' E1 E3). apply struct_equiv_refl.
+    + rewrite E5. reflexivity.
 Qed.
 
 Lemma deliver_acks_fold_inbox slot0 picked : forall s slot i,
@@ -99,10 +102,10 @@ Qed.
 
 Lemma deliver_acks_fold_fields slot0 picked : forall s,
   let s' := fold_left (fun s idxs => deliver_acks s slot0 idxs) picked s in
-  sv_ents s' = sv_ents s /\ sv_tick s' = sv_tick s /\ sv_clients s' = sv_clients s.
+  sv_ents s' = sv_ents s /\ sv_tick s' = sv_tick s /\ sv_clients s' = sv_clients s /\ sv_now s' = sv_now s.
 Proof.
   induction picked as [|idxs t IH]; intros s; cbn [fold_left]; [cbv zeta; auto|].
-  destruct (IH (deliver_acks s slot0 idxs)) as (A & B & C). cbv zeta. rewrite A, B, C.
+  destruct (IH (deliver_acks s slot0 idxs)) as (A & B & C & D). cbv zeta. rewrite A, B, C, D.
   unfold deliver_acks. destruct (sv_running s); [|auto]. destruct (find_client s slot0); cbn; auto.
 Qed.
 
@@ -122,18 +125,20 @@ Lemma same_core_refl c : same_core c c.
 Proof. unfold same_core. auto 6. Qed.
 
 Lemma vslot_same (SN SN' : N -> N -> server -> Prop) y y' regs slot c c' :
-  (forall t r s1, SN t r s1 -> SN' t r s1) ->
+  (forall t r s1, SN t r s1 -> SN' t r s1) -> (forall t r s1, SN' t r s1 -> SN t r s1) ->
   sv_ents (y_server y') = sv_ents (y_server y) -> sv_tick (y_server y') = sv_tick (y_server y) ->
+  sv_now (y_server y') = sv_now (y_server y) ->
   sv_clients (y_server y') = sv_clients (y_server y) -> same_core c c' ->
   (cl_status c = Connected -> pend_of y' slot c' = pend_of y slot c) ->
   (cl_status c = Connected -> forall m, In m (muts_of y' slot c') -> In m (muts_of y slot c)) ->
   (forall i, In i (acks_of y' slot) -> In i (acks_of y slot)) ->
   vslot_inv SN y regs slot c -> vslot_inv SN' y' regs slot c'.
 Proof.
-  intros Hsn Ee Et Ec (C1 & C2 & C3 & C4 & C5 & C6) Hp Hm Ha Hv.
+  intros Hsn Hback Ee Et En Ec (C1 & C2 & C3 & C4 & C5 & C6) Hp Hm Ha Hv.
   apply (vslot_mono SN SN' y y' regs slot c c'); try assumption.
   - intros e. unfold dead, get_ent. rewrite Ee. auto.
   - rewrite Et. lia.
+  - rewrite En. lia.
   - intros _ cl' Hin Hs. rewrite Ec in Hin. exists cl'. auto.
 Qed.
 
@@ -143,7 +148,7 @@ Lemma srv_slot_add_acks (SN : N -> N -> server -> Prop) s cl c pend muts acks ne
      forall e vals, In (e, vals) (m_body m) -> cg s c pend 0 e (m_tick m)) ->
   srv_slot_inv SN s cl c pend muts acks -> srv_slot_inv SN s cl c pend muts (acks ++ new).
 Proof.
-  intros Hnew [H1 H2 H3 H4 H5 H6 H7 H8]. constructor; try assumption.
+  intros Hnew [H1 H2 H3 H4 H5 H6 H7 H8 H9 H10 H11 H12]. constructor; try assumption.
   - intros i info e Hi Hinfo He. apply in_app_or in Hi. destruct Hi as [Hi|Hi]; [exact (H2 i info e Hi Hinfo He)|].
     destruct (Hnew i Hi) as (m & Hm & Ei & Hcg). subst i. destruct (H3 m info Hm Hinfo) as [[s1 Hsn] Hents].
     rewrite Hents in He. apply in_map_iff in He. destruct He as [[e' vals] [Ee Hb]]. cbn in Ee. subst e'.
@@ -216,6 +221,27 @@ Proof.
   - exact I.
 Qed.
 
+(* an entity the client does not hold and that nothing on its way mentions is not in what has been sent *)
+Lemma abs_apply_none S u e : al_get e S = None -> ~ mentions u e -> al_get e (abs_apply S u) = None.
+Proof.
+  intros H0 Hnm. unfold abs_apply, mentions in *.
+  set (S1 := fold_left abs_despawn (u_despawns u) S).
+  assert (H1 : al_get e S1 = None) by (unfold S1; rewrite despawn_fold_get, H0; destruct (mem_N e (u_despawns u)); reflexivity).
+  set (S2 := fold_left abs_removal (u_removals u) S1).
+  assert (H2 : al_get e S2 = None).
+  { pose proof (removal_fold_get (u_removals u) S1 e) as G. fold S2 in G. destruct (al_get e S2); [|reflexivity].
+    destruct G as [[G|G] _]; [tauto|congruence]. }
+  pose proof (change_fold_get (u_changes u) S2 e) as G. destruct (al_get e (fold_left abs_change (u_changes u) S2)); [|reflexivity].
+  destruct G as [[G|G] _]; [tauto|congruence].
+Qed.
+
+Lemma fold_apply_none pend : forall S e, al_get e S = None -> (forall u, In u pend -> ~ mentions u e) ->
+  al_get e (fold_left abs_apply pend S) = None.
+Proof.
+  induction pend as [|u t IH]; intros S e H0 Hnm; cbn [fold_left]; [exact H0|].
+  apply IH; [apply abs_apply_none; [exact H0|apply Hnm; left; reflexivity]|intros u0 Hu0; apply Hnm; right; exact Hu0].
+Qed.
+
 Section E2EV.
   Variables (cfg0 : cfg) (nclients : N).
   Hypothesis Hpol : cfg_policy cfg0 = PAll.
@@ -246,6 +272,19 @@ Section E2EV.
     unfold small_tick. lia.
   Qed.
 
+  Lemma snap_back script y st t r s1 : run init script = Ok y -> is_sframe st = false ->
+    SNof (script ++ [st]) t r s1 -> SNof script t r s1.
+  Proof. apply snap_snoc_nonframe. Qed.
+
+  Lemma snap_wf script t r s1 : script_okm script = true -> script_vals script = true -> tick_frames script < 2 ^ 31 ->
+    SNof script t r s1 -> ents_wf s1.
+  Proof.
+    intros H1 H2 H3 Hs. destruct (snap_reached cfg0 nclients script _ _ _ Hs) as (pre & post & y1 & E & R & Es & _). subst script s1.
+    rewrite script_okm_app in H1. rewrite script_vals_app in H2. apply andb_prop in H1. apply andb_prop in H2.
+    pose proof (tick_frames_app_le pre post) as Hle.
+    exact (sh_wf _ _ _ _ (hist_run cfg0 nclients Hpol pre y1 (proj1 H1) (proj1 H2) ltac:(lia) R)).
+  Qed.
+
   (* the links of the other slots *)
   Lemma link_other y slot0 l c0 slot : slot <> slot0 ->
     get_link (set_client (set_link y slot0 l) slot0 c0) slot = get_link y slot.
@@ -267,15 +306,16 @@ Section E2EV.
     intros Hnf Hrun H -> Ec Hcore Hp Hm Ha Hinv slot c Hc.
     rewrite (regs_snoc script y st _ o slot Hrun H), (regs_step_nonframe y st slot Hnf), N.add_0_r.
     assert (Hsn : forall t r s1, SNof script t r s1 -> SNof (script ++ [st]) t r s1) by (intros t r s1; apply snap_mono).
+    assert (Hbk : forall t r s1, SNof (script ++ [st]) t r s1 -> SNof script t r s1) by (intros t r s1; exact (snap_back script y st t r s1 Hrun Hnf)).
     cbn [set_client set_link y_clients] in Hc. destruct (N.eq_dec slot slot0) as [->|Hne].
     - rewrite al_get_insert_same in Hc. inversion Hc; subst c. clear Hc.
-      apply (vslot_same (SNof script) _ y _ _ slot0 cl cl' Hsn); [reflexivity|reflexivity|reflexivity|exact Hcore| | | |exact (Hinv slot0 cl Ec)].
+      apply (vslot_same (SNof script) _ y _ _ slot0 cl cl' Hsn Hbk); [reflexivity|reflexivity|reflexivity|reflexivity|exact Hcore| | | |exact (Hinv slot0 cl Ec)].
       + intros Hcon. unfold pend_of. rewrite link_same. exact (Hp Hcon).
       + intros Hcon m Hin. unfold muts_of in Hin. rewrite link_same in Hin. exact (Hm Hcon m Hin).
       + intros i Hi. unfold acks_of in *. rewrite link_same in Hi. cbn [set_client set_link y_server] in Hi.
         apply in_app_or in Hi. apply in_or_app. destruct Hi as [Hi|Hi]; [left; exact Hi|right; exact (Ha i Hi)].
     - rewrite al_get_insert_other in Hc by exact Hne.
-      apply (vslot_same (SNof script) _ y _ _ slot c c Hsn); [reflexivity|reflexivity|reflexivity|apply same_core_refl| | | |exact (Hinv slot c Hc)].
+      apply (vslot_same (SNof script) _ y _ _ slot c c Hsn Hbk); [reflexivity|reflexivity|reflexivity|reflexivity|apply same_core_refl| | | |exact (Hinv slot c Hc)].
       + intros _. unfold pend_of. rewrite (link_other y slot0 l' cl' slot Hne). reflexivity.
       + intros _ m Hin. unfold muts_of in *. rewrite (link_other y slot0 l' cl' slot Hne) in Hin. exact Hin.
       + intros i Hi. unfold acks_of in *. rewrite (link_other y slot0 l' cl' slot Hne) in Hi. exact Hi.
@@ -288,6 +328,7 @@ Section E2EV.
     rewrite (regs_snoc script y st _ o slot Hrun H), (regs_step_nonframe y st slot Hnf), N.add_0_r.
     apply (vslot_same (SNof script) _ y y _ slot c c); try reflexivity; auto.
     - intros t r s1. apply snap_mono.
+    - intros t r s1. exact (snap_back script y st t r s1 Hrun Hnf).
     - apply same_core_refl.
   Qed.
 
@@ -330,10 +371,10 @@ Section E2EV.
              ++ intros i Hi. exact Hi.
       + destruct (ch =? 0); [|inversion H; subst y' o; exact (v_noop script _ y _ Hnf Hrun H0 Hinv)].
         destruct (take w (l_ack (get_link y slot0))) as [picked rest] eqn:Etk. inversion H; subst y' o. clear H.
-        destruct (deliver_acks_fold_fields slot0 picked (y_server y)) as (X1 & X2 & X3). cbv zeta in X1, X2, X3.
+        destruct (deliver_acks_fold_fields slot0 picked (y_server y)) as (X1 & X2 & X3 & X4). cbv zeta in X1, X2, X3, X4.
         intros slot c Hc. cbn [set_server set_link y_clients] in Hc.
         rewrite (regs_snoc script y _ _ _ slot Hrun H0), (regs_step_nonframe y _ slot Hnf), N.add_0_r.
-        apply (vslot_same (SNof script) _ y _ _ slot c c); [intros t r s1; apply snap_mono|exact X1|exact X2|exact X3|apply same_core_refl| | | |exact (Hinv slot c Hc)].
+        apply (vslot_same (SNof script) _ y _ _ slot c c); [intros t r s1; apply snap_mono|intros t r s1; exact (snap_back script y _ t r s1 Hrun Hnf)|exact X1|exact X2|exact X4|exact X3|apply same_core_refl| | | |exact (Hinv slot c Hc)].
         * intros _. unfold pend_of. change (get_link (set_server ?a ?b) slot) with (get_link a slot).
           destruct (N.eq_dec slot slot0) as [->|Hne]; [rewrite get_link_set_link_same|rewrite get_link_set_link_other by exact Hne]; reflexivity.
         * intros _ m Hm. unfold muts_of in *. change (get_link (set_server ?a ?b) slot) with (get_link a slot) in Hm.
@@ -365,7 +406,7 @@ Section E2EV.
   Proof.
     intros Hrun Hinv slot c Hc. cbn [set_server y_clients] in Hc.
     rewrite (regs_snoc script y StStart _ ONone slot Hrun eq_refl). cbn [regs_step]. rewrite N.add_0_r.
-    apply (vslot_same (SNof script) _ y _ _ slot c c); [intros t r s1; apply snap_mono|reflexivity|reflexivity|reflexivity|apply same_core_refl| | | |exact (Hinv slot c Hc)].
+    apply (vslot_same (SNof script) _ y _ _ slot c c); [intros t r s1; apply snap_mono|intros t r s1; exact (snap_back script y StStart t r s1 Hrun eq_refl)|reflexivity|reflexivity|reflexivity|reflexivity|apply same_core_refl| | | |exact (Hinv slot c Hc)].
     - intros _. reflexivity.
     - intros _ m Hm. exact Hm.
     - intros i Hi. exact Hi.
@@ -375,10 +416,13 @@ Section E2EV.
 
   Lemma v_cframe script y slot0 ops y' o :
     run init script = Ok y -> srv_hist cfg0 nclients script (y_server y) -> tick_frames script < 2 ^ 31 ->
+    script_okm script = true -> script_vals script = true ->
     v_inv script y -> sys_step y (StCFrame slot0 ops) = Ok (y', o) -> v_inv (script ++ [StCFrame slot0 ops]) y'.
   Proof.
-    intros Hrun Hh Hb Hinv H. pose proof H as H0.
+    intros Hrun Hh Hb Hokm Hvals Hinv H. pose proof H as H0.
     assert (Hsn : forall t r s1, SNof script t r s1 -> SNof (script ++ [StCFrame slot0 ops]) t r s1) by (intros t r s1; apply snap_mono).
+    assert (Hbk : forall t r s1, SNof (script ++ [StCFrame slot0 ops]) t r s1 -> SNof script t r s1)
+      by (intros t r s1; exact (snap_back script y (StCFrame slot0 ops) t r s1 Hrun eq_refl)).
     cbn [sys_step] in H. destruct (al_get slot0 (y_clients y)) as [cl|] eqn:Ec.
     2:{ inversion H; subst y' o. exact (v_noop script (StCFrame slot0 ops) y _ eq_refl Hrun H0 Hinv). }
     destruct (client_frame cl ops) as [[cl' cfo]| |] eqn:Ef; cbn [bind] in H; try discriminate.
@@ -388,11 +432,12 @@ Section E2EV.
     assert (Etick : sv_tick (y_server y') = sv_tick (y_server y)) by (rewrite G1; reflexivity).
     assert (Ecls : sv_clients (y_server y') = sv_clients (y_server y)) by (rewrite G1; reflexivity).
     assert (Einb : sv_inbox_acks (y_server y') = sv_inbox_acks (y_server y)) by (rewrite G1; reflexivity).
+    assert (Enow : sv_now (y_server y') = sv_now (y_server y)) by (rewrite G1; reflexivity).
     intros slot c Hc. rewrite G2 in Hc.
     rewrite (regs_snoc script y _ _ _ slot Hrun H0). cbn [regs_step]. rewrite N.add_0_r.
     destruct (N.eq_dec slot slot0) as [->|Hne].
     2:{ rewrite al_get_insert_other in Hc by exact Hne.
-        apply (vslot_same (SNof script) _ y _ _ slot c c Hsn Eents Etick Ecls (same_core_refl c)); [| | |exact (Hinv slot c Hc)].
+        apply (vslot_same (SNof script) _ y _ _ slot c c Hsn Hbk Eents Etick Enow Ecls (same_core_refl c)); [| | |exact (Hinv slot c Hc)].
         - intros _. unfold pend_of. rewrite (G3 slot Hne). reflexivity.
         - intros _ m Hm. unfold muts_of in *. rewrite (G3 slot Hne) in Hm. exact Hm.
         - intros i Hi. unfold acks_of in *. rewrite Einb, (G3 slot Hne) in Hi. exact Hi. }
@@ -409,8 +454,9 @@ Section E2EV.
     - (* connected *)
       destruct (snap_facts script _ Hh Hb) as (SNinj & SNkeep & SNsmall).
       pose proof (V2 Es) as Hi. unfold pend_of, muts_of in Hi. fold l in Hi.
-      destruct (cli_frame (SNof script) SNinj SNkeep SNsmall (y_server y) cl (l_upd l) (l_mut l ++ cl_inbox_mut cl ++ cl_buffered cl) ops cl' cfo Hi
-                  (fun m Hm => in_or_app _ _ m (or_intror Hm)) Es Ef) as (Hi' & Hcf & Ei & Em & Est & Hbuf & Hacks).
+      assert (SNwf : forall t r s1, SNof script t r s1 -> ents_wf s1) by (intros t r s1; exact (snap_wf script t r s1 Hokm Hvals Hb)).
+      destruct (cli_frame (SNof script) SNinj SNkeep SNsmall SNwf (y_server y) cl (l_upd l) (l_mut l ++ cl_inbox_mut cl ++ cl_buffered cl) ops cl' cfo Hi
+                  (fun m Hm => in_or_app _ _ m (or_intror Hm)) Es Ef) as (Hi' & Hcf & Ei & Em & Est & Hbuf & Hacks & Hstr & Htk' & _).
       assert (Hmuts' : forall m, In m (l_mut (get_link y' slot0) ++ cl_inbox_mut cl' ++ cl_buffered cl') -> In m (l_mut l ++ cl_inbox_mut cl ++ cl_buffered cl)).
       { intros m Hm. rewrite G5, Em in Hm. cbn [app] in Hm. apply in_app_or in Hm. apply in_or_app.
         destruct Hm as [Hm|Hm]; [left; exact Hm|right; exact (Hbuf m Hm)]. }
@@ -420,7 +466,7 @@ Section E2EV.
       + intros Hd. congruence.
       + intros _. unfold pend_of, muts_of. rewrite Ei, G4. cbn [app].
         apply (cli_inv_muts _ _ _ _ (l_mut l ++ cl_inbox_mut cl ++ cl_buffered cl)); [exact Hmuts'|].
-        apply (cli_inv_srv (SNof script) _ (y_server y)); [exact Hsn|exact Hdead|exact Hi'].
+        apply (cli_inv_srv (SNof script) _ (y_server y)); [exact Hsn|intros t r s0 H1; left; exact (Hbk _ _ _ H1)|exact Hdead|exact Hi'].
       + intros _ rec Hin Hs. rewrite Ecls in Hin.
         destruct (V3 Es rec Hin Hs) as (S1 & S2 & S3). split; [|split; [exact S2|exact S3]].
         unfold pend_of, muts_of, acks_of in *. rewrite Einb, Ei, G4. cbn [app]. fold l in S1.
@@ -429,11 +475,13 @@ Section E2EV.
         * intros i Hi0. destruct G6 as [G6|(_ & G6)]; rewrite G6 in Hi0.
           -- apply in_or_app. left. exact Hi0.
           -- rewrite concat_app in Hi0. cbn [concat] in Hi0. rewrite app_nil_r, app_assoc in Hi0. exact Hi0.
-        * apply (srv_slot_srv (SNof script) _ (y_server y)); [exact Hsn|exact Hdead|rewrite Etick; lia|].
+        * apply (srv_slot_srv (SNof script) _ (y_server y)); [exact Hsn|intros e0 a0 t0 r0 s0 _ H1 _; exact (Hbk _ _ _ H1)|exact Hdead|rewrite Etick; lia|rewrite Enow; lia|].
           apply srv_slot_add_acks.
           -- intros i Hi0. destruct (Hacks i Hi0) as (m & Hm & Eidx & Hcg). exists m. split; [apply in_or_app; right; exact Hm|]. split; [exact Eidx|exact Hcg].
-          -- apply (srv_slot_mono (SNof script) (y_server y) rec cl (cl_inbox_upd cl ++ l_upd l) _ _ (y_server y) cl' (l_upd l)); [reflexivity| |exact Hcf|exact S1].
-             intros u Hu. apply in_or_app. right. exact Hu.
+          -- apply (srv_slot_mono (SNof script) (y_server y) rec cl (cl_inbox_upd cl ++ l_upd l) _ _ (y_server y) cl' (l_upd l)); [reflexivity|reflexivity| |exact Hcf|exact Hstr| |exact S1].
+             ++ intros u Hu. apply in_or_app. right. exact Hu.
+             ++ rewrite Htk', map_app. generalize (map u_tick (l_upd l)) as l2. generalize (cl_upd_tick cl) as d. generalize (map u_tick (cl_inbox_upd cl)) as l1.
+                clear. intros l1 d l2. destruct l2 as [|b t]; [rewrite app_nil_r; reflexivity|]. rewrite (last_app_ne l1 (b :: t)) by discriminate. apply last_cons_indep.
   Qed.
 
   (* ---------- StConnect ---------- *)
@@ -448,6 +496,7 @@ Section E2EV.
     - apply ticks_incr_nil.
     - intros u [].
     - intros m [].
+    - intros p u q E. destruct p; discriminate.
     - intros p u q E. destruct p; discriminate.
   Qed.
 
@@ -465,9 +514,11 @@ Section E2EV.
     assert (F1 : exists cnew, sv_clients s' = sv_clients s ++ [cnew] /\ sc_slot cnew = slot0 /\ sc_ticks cnew = ct_default).
     { unfold s', connect_client. fold s. rewrite Er, Ef. eexists. split; [reflexivity|]. destruct (cfg_auth cfg0); cbn; auto. }
     destruct F1 as (cnew & F1 & F2 & F3).
-    assert (Fe : sv_ents s' = sv_ents s /\ sv_tick s' = sv_tick s /\ sv_inbox_acks s' = sv_inbox_acks s).
+    assert (Fe : sv_ents s' = sv_ents s /\ sv_tick s' = sv_tick s /\ sv_inbox_acks s' = sv_inbox_acks s /\ sv_now s' = sv_now s).
     { unfold s', connect_client. fold s. rewrite Er, Ef. cbn. auto. }
-    destruct Fe as (Fe1 & Fe2 & Fe3).
+    destruct Fe as (Fe1 & Fe2 & Fe3 & Fe4).
+    assert (Hbk : forall t r s1, SNof (script ++ [StConnect slot0 max]) t r s1 -> SNof script t r s1)
+      by (intros t r s1; exact (snap_back script y (StConnect slot0 max) t r s1 Hrun eq_refl)).
     assert (Hnorec : forall rec, In rec (sv_clients s) -> sc_slot rec <> slot0).
     { intros rec Hin Hs. unfold find_client in Ef. pose proof (find_none _ _ Ef rec Hin) as Hf. cbn in Hf. lia. }
     intros slot c Hc. cbn [set_client set_server y_clients] in Hc.
@@ -491,11 +542,12 @@ Section E2EV.
       + intros _. rewrite Hp, Hmu. apply cli_inv_fresh; [apply cs_inv_set_status; exact O1|revert O2; apply pu_ext; reflexivity|exact A1|exact A2].
       + intros _ rec Hin Hs. change (In rec (sv_clients s')) in Hin. rewrite F1 in Hin. apply in_app_or in Hin.
         destruct Hin as [Hin|[<-|[]]]; [exfalso; exact (Hnorec rec Hin Hs)|].
-        rewrite Hp, Hmu, Hak. split; [apply srv_slot_default; exact F3|]. split; [rewrite F3, A4; reflexivity|intros _; exact F3].
+        rewrite Hp, Hmu, Hak. split; [apply srv_slot_default; [exact F3|exact A2]|]. split; [rewrite F3, A4; reflexivity|intros _; exact F3].
     - rewrite al_get_insert_other in Hc by exact Hne.
-      refine (vslot_mono (SNof script) _ y _ _ slot c c Hsn _ _ _ eq_refl eq_refl eq_refl eq_refl eq_refl eq_refl _ _ _ (Hinv slot c Hc)).
+      refine (vslot_mono (SNof script) _ y _ _ slot c c Hsn Hbk _ _ _ _ eq_refl eq_refl eq_refl eq_refl eq_refl eq_refl _ _ _ (Hinv slot c Hc)).
       + intros e. change (dead s e -> dead s' e). unfold dead, get_ent. rewrite Fe1. auto.
       + change (sv_tick s <= sv_tick s'). rewrite Fe2. lia.
+      + change (sv_now s <= sv_now s'). rewrite Fe4. lia.
       + intros _ rec Hin Hs. change (In rec (sv_clients s')) in Hin. rewrite F1 in Hin. apply in_app_or in Hin.
         destruct Hin as [Hin|[<-|[]]]; [exists rec; auto|congruence].
       + intros _. unfold pend_of. change (get_link (set_client ?a ?b ?c1) slot) with (get_link y slot). reflexivity.
@@ -512,9 +564,11 @@ Section E2EV.
   Proof.
     intros Hrun Hcfg Hinv. set (s := y_server y). set (s' := authorize_client (y_cfg y) s slot0).
     assert (Hsn : forall t r s1, SNof script t r s1 -> SNof (script ++ [StAuthorize slot0]) t r s1) by (intros t r s1; apply snap_mono).
-    assert (Fe : sv_ents s' = sv_ents s /\ sv_tick s' = sv_tick s /\ sv_inbox_acks s' = sv_inbox_acks s).
+    assert (Fe : sv_ents s' = sv_ents s /\ sv_tick s' = sv_tick s /\ sv_inbox_acks s' = sv_inbox_acks s /\ sv_now s' = sv_now s).
     { unfold s', authorize_client. destruct (find_client s slot0) as [c0|]; [|auto]. destruct (sc_authorized c0); cbn; auto. }
-    destruct Fe as (Fe1 & Fe2 & Fe3).
+    destruct Fe as (Fe1 & Fe2 & Fe3 & Fe4).
+    assert (Hbk : forall t r s1, SNof (script ++ [StAuthorize slot0]) t r s1 -> SNof script t r s1)
+      by (intros t r s1; exact (snap_back script y (StAuthorize slot0) t r s1 Hrun eq_refl)).
     assert (Hrec : forall rec', In rec' (sv_clients s') ->
               In rec' (sv_clients s) \/
               (sc_ticks rec' = ct_default /\ sc_slot rec' = slot0 /\ sc_authorized rec' = true /\
@@ -528,9 +582,10 @@ Section E2EV.
     intros slot c Hc. cbn [set_server y_clients] in Hc.
     rewrite (regs_snoc script y (StAuthorize slot0) _ ONone slot Hrun eq_refl). cbn [regs_step]. rewrite N.add_0_r.
     pose proof (Hinv slot c Hc) as Hv.
-    refine (vslot_mono (SNof script) _ y _ _ slot c c Hsn _ _ _ eq_refl eq_refl eq_refl eq_refl eq_refl eq_refl _ _ _ Hv).
+    refine (vslot_mono (SNof script) _ y _ _ slot c c Hsn Hbk _ _ _ _ eq_refl eq_refl eq_refl eq_refl eq_refl eq_refl _ _ _ Hv).
     - intros e. change (dead s e -> dead s' e). unfold dead, get_ent. rewrite Fe1. auto.
     - change (sv_tick s <= sv_tick s'). rewrite Fe2. lia.
+    - change (sv_now s <= sv_now s'). rewrite Fe4. lia.
     - intros Es rec' Hin Hs. change (In rec' (sv_clients s')) in Hin.
       destruct (Hrec rec' Hin) as [Hold|(T1 & T2 & T3 & rec & Hr1 & Hr2 & Hr3)]; [exists rec'; auto|].
       exists rec. split; [exact Hr1|]. split; [congruence|]. split; [|congruence].
@@ -557,9 +612,10 @@ Section E2EV.
     srv_hist cfg0 nclients script (y_server y) -> srv_hist cfg0 nclients (script ++ [st]) (y_server y') ->
     no_tick0 (script ++ [st]) = true -> forallb sop_ok ops = true -> forallb sop_vals ops = true ->
     (forall slot, regs_of init (script ++ [st]) slot < 2 ^ 16) ->
+    script_okm script = true -> tick_frames script < 2 ^ 31 -> erun init [] script = Ok (y, gs) ->
     v_inv script y -> sys_step y st = Ok (y', o) -> v_inv (script ++ [st]) y'.
   Proof.
-    intros st Hrun Hm Hh Hh' Hn0 Hops Hvals Hregs Hinv H. unfold st in H. pose proof H as H0. pose proof Hm as [Hcfg Hg Hnm Hrn Hlr Htk Hslots].
+    intros st Hrun Hm Hh Hh' Hn0 Hops Hvals Hregs Hokm Hb Eg Hinv H. unfold st in H. pose proof H as H0. pose proof Hm as [Hcfg Hg Hnm Hrn Hlr Htk Hslots].
     assert (Hsn : forall t r s1, SNof script t r s1 -> SNof (script ++ [st]) t r s1) by (intros t r s1; apply snap_mono).
     cbn [sys_step] in H. rewrite Hcfg in H. set (s := y_server y) in *.
     destruct (server_frame cfg0 s tick dt cleanup ops parts) as [[s' fo]| |] eqn:Ef; cbn [bind] in H; try discriminate.
@@ -621,10 +677,26 @@ Section E2EV.
       assert (Hwrap : regs_of init script slot + N.of_nat (length (mutates_for slot (fo_clients fo))) < 2 ^ 16).
       { pose proof (Hregs slot) as Hr. rewrite (regs_snoc script y st _ _ slot Hrun H0) in Hr. unfold regs_step, st in Hr.
         rewrite Hcfg in Hr. fold s in Hr. rewrite Ef in Hr. exact Hr. }
+      assert (Hmax : sv_now s < MAX_CHANGE_AGE).
+      { pose proof (now_bound cfg0 nclients Hpol script y Hokm Hb Hrun) as Hnb. fold s in Hnb. pose proof (sh_tick _ _ _ _ Hh) as Ht0.
+        pose proof max_change_age_far as Hfar. destruct (sv_dirty s); lia. }
+      assert (Hsnap' : forall t r s0, SNof (script ++ [st]) t r s0 ->
+                SNof script t r s0 \/ (fo_ran fo = true /\ t = sv_tick s' /\ r = sv_now s /\ s0 = s')).
+      { intros t r s0 Hs0. destruct (snap_snoc_inv cfg0 nclients script y st t r s0 Hrun Hs0) as [Ho|(y1 & tk & dt0 & cu0 & ops0 & parts0 & fo0 & vs0 & E & Hst0 & Hran & A & B & C)];
+          [left; exact Ho|right].
+        unfold st in Hst0. rewrite H0 in Hst0. inversion Hst0; subst y1 fo0. rewrite Q2 in A. subst s0.
+        split; [exact Hran|]. split; [symmetry; exact B|]. split; [rewrite <- C; exact (Hlast Hran)|reflexivity]. }
+      assert (Hbndr : forall t r s1, SNof script t r s1 -> r < sv_now s).
+      { intros t r s1 Hs1. destruct (sh_bound _ _ _ _ Hh t r s1 Hs1) as (B1 & _). pose proof (sh_now _ _ _ _ Hh) as B2. fold s in B1, B2. lia. }
+      assert (Hpendok : forall rec, In rec (sv_clients s) -> sc_slot rec = slot -> sc_authorized rec = true ->
+                pending_ok s (sc_ticks rec) (fold_left abs_apply (pend_of y slot c) (client_struct c))).
+      { intros rec Hin Hs Hau. destruct (gi_clients _ Hg rec Hin Hau) as [Hp _]. cbn [g_srv g_sent] in Hp. rewrite Hs in Hp.
+        apply (pending_ok_equiv s (sc_ticks rec) (sent_of slot gs)); [|exact Hp]. apply struct_equiv_symm.
+        exact (m_in_flight cfg0 nclients Hpol script y gs slot c Hokm Hb Eg Hc Es). }
       destruct (sframe_slot (SNof script) (SNof (script ++ [st])) Hsn cfg0 s tick dt cleanup ops parts s' fo
                   (gi_srv _ Hg) Hrunning (gi_slots _ Hg) Hops Hvals Hnm (hist_ents_ok _ _ _ _ Hh) (sh_db _ _ _ _ Hh) Ef Htk3
-                  Hsnapnew Hbnd Hposn slot c (pend_of y slot c) (muts_of y slot c) (concat (l_ack (get_link y slot)))
-                  (regs_of init script slot) (V2 Es) (V3 Es) Hwrap) as [Hcli' Hsrv'].
+                  Hsnapnew Hbnd Hposn Hmax Hsnap' Hbndr slot c (pend_of y slot c) (muts_of y slot c) (concat (l_ack (get_link y slot)))
+                  (regs_of init script slot) (V2 Es) (V3 Es) Hwrap Hpendok) as [Hcli' Hsrv'].
       assert (Epend : pend_of (enqueue_outputs (set_server y s') outs) slot c = pend_of y slot c ++ sf_extra fo slot).
       { unfold pend_of. rewrite Elupd, app_assoc. reflexivity. }
       assert (Hmsub : forall m, In m (muts_of (enqueue_outputs (set_server y s') outs) slot c) -> In m (muts_of y slot c ++ sf_newm fo slot)).
@@ -687,8 +759,8 @@ Section E2EV.
       + cbn [sys_step] in E2. inversion E2; subst y2 o. exact (v_start t y1 E1 Hinv1).
       + exact (v_connect t y1 gs1 slot max y2 o E1 Hm1 Hinv1 E2).
       + cbn [sys_step] in E2. inversion E2; subst y2 o. exact (v_authorize t y1 slot E1 (mi_cfg _ _ _ _ _ Hm1) Hinv1).
-      + exact (v_sframe t y1 gs1 tick dt cleanup ops parts y2 o E1 Hm1 Hh1 Hh2 K3 H3 Hv K5 Hinv1 E2).
-      + exact (v_cframe t y1 slot ops y2 o E1 Hh1 J4 Hinv1 E2).
+      + exact (v_sframe t y1 gs1 tick dt cleanup ops parts y2 o E1 Hm1 Hh1 Hh2 K3 H3 Hv K5 J1 J4 Eg1 Hinv1 E2).
+      + exact (v_cframe t y1 slot ops y2 o E1 Hh1 J4 J1 J2 Hinv1 E2).
       + exact (v_transport t (StDeliver slot s2c ch w) y1 y2 o eq_refl HL E1 Hinv1 E2).
       + exact (v_transport t (StDrop slot s2c ch w) y1 y2 o eq_refl HL E1 Hinv1 E2).
   Qed.
@@ -702,14 +774,31 @@ Section E2EV.
     al_get slot (y_clients y) = Some c -> cl_status c = Connected ->
     al_get e (cl_s2c c) = Some cid -> get_cent c cid = Some x -> ce_alive x = true -> ce_marker x = true -> ce_hist x = Some h ->
     exists pre post y1 x1, script = pre ++ post /\ run init pre = Ok y1 /\ sv_tick (y_server y1) = h_last h /\
-      get_ent (y_server y1) e = Some x1 /\ agree (ce_comps x) (se_comps x1).
+      repl_get (y_server y1) e = Some x1 /\ agree (ce_comps x) (se_comps x1) /\
+      kinds_equiv (map fst (ce_comps x)) (map fst (se_comps x1)).
   Proof.
     intros Hsc Hrun Hc Hst He Hx Ha Hm Hh.
     pose proof (v_run script y Hsc Hrun slot c Hc) as [_ V2 _]. specialize (V2 Hst).
     assert (Hhas : has c e x h) by (split; [unfold centof; rewrite He; exact Hx|auto]).
-    destruct (cv_T _ _ _ _ _ V2 e x h Hhas) as (r & s1 & x1 & Hsn & Hx1 & Hag).
+    destruct (cv_T _ _ _ _ _ V2 e x h Hhas) as (r & s1 & x1 & Hsn & Hx1 & Hag & Hk).
     destruct (snap_reached cfg0 nclients script _ _ _ Hsn) as (pre & post & y1 & E & R & Es & Et & _).
-    exists pre, post, y1, x1. subst s1. auto 6.
+    exists pre, post, y1, x1. subst s1. auto 8.
+  Qed.
+
+  (* the same, as a pointwise equality of the two finite maps kind -> value *)
+  Corollary e2e_truthful_exact script y slot c e cid x h :
+    script_scope script -> run init script = Ok y ->
+    al_get slot (y_clients y) = Some c -> cl_status c = Connected ->
+    al_get e (cl_s2c c) = Some cid -> get_cent c cid = Some x -> ce_alive x = true -> ce_marker x = true -> ce_hist x = Some h ->
+    exists pre post y1, script = pre ++ post /\ run init pre = Ok y1 /\ sv_tick (y_server y1) = h_last h /\
+      forall k, al_get k (ce_comps x) = option_map cv_nat (sview (y_server y1) e k).
+  Proof.
+    intros Hsc Hrun Hc Hst He Hx Ha Hm Hh.
+    destruct (e2e_truthful script y slot c e cid x h Hsc Hrun Hc Hst He Hx Ha Hm Hh) as (pre & post & y1 & x1 & E & R & Et & Hr & Hag & Hk).
+    exists pre, post, y1. split; [exact E|]. split; [exact R|]. split; [exact Et|]. intros k. unfold sview. rewrite Hr.
+    specialize (Hk k). rewrite !mem_keys_get in Hk.
+    destruct (al_get k (ce_comps x)) as [cv|] eqn:Ec; destruct (al_get k (se_comps x1)) as [cc|] eqn:Es; cbn [option_map]; try discriminate; [|reflexivity].
+    rewrite (Hag k cv cc Ec Es). reflexivity.
   Qed.
 
   (* ================================================================ *)
@@ -722,15 +811,28 @@ Section E2EV.
     In cl (sv_clients (y_server y)) -> sc_slot cl = slot -> mutation_tick (sc_ticks cl) e = Some a ->
     exists pre post y1, script = pre ++ post /\ run init pre = Ok y1 /\ sv_last_run (y_server y1) = a /\
       ((exists u, In u (cl_inbox_upd c ++ l_upd (get_link y slot)) /\ mentions u e /\ sv_tick (y_server y1) <= u_tick u) \/
-       (exists x h, has c e x h /\ sv_tick (y_server y1) <= h_last h) \/
-       gone (y_server y) c (cl_inbox_upd c ++ l_upd (get_link y slot)) e).
+       (exists x h, has c e x h /\ sv_tick (y_server y1) <= h_last h)).
   Proof.
-    intros Hsc Hrun Hc Hst Hin Hs Hmt.
-    pose proof (v_run script y Hsc Hrun slot c Hc) as [_ _ V3]. destruct (V3 Hst cl Hin Hs) as (S1 & _).
+    intros Hsc Hrun Hc Hst Hin Hs Hmt. pose proof Hsc as (K1 & K2 & K3 & K4 & K5).
+    pose proof (v_run script y Hsc Hrun slot c Hc) as [_ V2 V3]. destruct (V3 Hst cl Hin Hs) as (S1 & _ & S3).
     destruct (sv_K _ _ _ _ _ _ _ S1 e a Hmt) as (t_a & s_a & Hsn & Hcg).
     destruct (snap_reached cfg0 nclients script _ _ _ Hsn) as (pre & post & y1 & E & R & Es & Et & Er).
     exists pre, post, y1. subst s_a. split; [exact E|]. split; [exact R|]. split; [exact Er|]. rewrite Et.
-    destruct Hcg as [(u & Hu & _ & Hm & Hle)|[Hh|Hg]]; [left; exists u; auto|right; left; exact Hh|right; right; exact Hg].
+    destruct Hcg as [(u & Hu & _ & Hm & Hle)|[Hh|(Hd & Hnone & Hno)]]; [left; exists u; auto|right; exact Hh|].
+    (* dead, unknown to the client, mentioned by nothing on its way: then the server holds no stamp for it *)
+    exfalso. destruct (run_erun script init [] y Hrun) as [gs Eg].
+    pose proof (m_run cfg0 nclients Hpol script y gs K1 K4 Eg) as [_ Hg _ _ _ _ _].
+    assert (Hau : sc_authorized cl = true).
+    { destruct (sc_authorized cl) eqn:Ea; [reflexivity|]. rewrite (S3 eq_refl) in Hmt. discriminate. }
+    destruct (gi_clients _ Hg cl Hin Hau) as [Hp _]. cbn [g_srv g_sent] in Hp. rewrite Hs in Hp.
+    pose proof (m_in_flight cfg0 nclients Hpol script y gs slot c K1 K4 Eg Hc Hst e) as Hfl.
+    pose proof (cv_cs _ _ _ _ _ (V2 Hst)) as Hcs.
+    assert (Hcs0 : al_get e (client_struct c) = None).
+    { rewrite (al_get_client_struct c e (cs_inv_nodup c Hcs)). unfold cs_get. unfold centof in Hnone.
+      destruct (al_get e (cl_s2c c)); [rewrite Hnone; reflexivity|reflexivity]. }
+    pose proof (fold_apply_none (cl_inbox_upd c ++ l_upd (get_link y slot)) _ e Hcs0 Hno) as Hfn. rewrite Hfn in Hfl.
+    assert (Hk : al_get e (sent_of slot gs) <> None) by (apply (pk_known _ _ _ Hp e); rewrite Hmt; discriminate).
+    destruct (al_get e (sent_of slot gs)); [destruct Hfl|congruence].
   Qed.
 
   (* ================================================================ *)
@@ -768,6 +870,7 @@ Section E2EV.
     split; [exact Hstruct|].
     pose proof (cv_cs _ _ _ _ _ V2) as Hcs. pose proof (cv_mo _ _ _ _ _ V2) as Hmo.
     destruct (snap_facts script s Hh K4) as (SNinj & SNkeep & SNsmall).
+    assert (SNwf : forall t r s1, SNof script t r s1 -> ents_wf s1) by (intros t r s1; exact (snap_wf script t r s1 K1 K2 K4)).
     intros e k. unfold cview, sview.
     pose proof (Hstruct e) as He. rewrite (al_get_client_struct c e (cs_inv_nodup c Hcs)), (al_get_struct_of s e Hwf) in He.
     unfold cs_get in He. unfold centof.
@@ -784,8 +887,8 @@ Section E2EV.
     { destruct Hcg as [(u & [] & _)|[(x1 & h1 & Hh1 & Hle)|(Hd & Hn0 & _)]].
       - destruct (has_fun c e xc h x1 h1 Hhas Hh1) as [-> ->]. exact Hle.
       - exfalso. destruct Hhas as [Hc0 _]. congruence. }
-    destruct (cv_T _ _ _ _ _ V2 e xc h Hhas) as (r0 & s0 & x0 & Hs0 & Hx0 & Hag).
-    assert (Hr0 : t0 <= r0) by exact (SN_le (SNof script) SNinj SNkeep SNsmall _ _ _ _ _ _ Hsa Hs0 Hconf).
+    destruct (cv_T _ _ _ _ _ V2 e xc h Hhas) as (r0 & s0 & x0 & Hs0 & Hx0r & Hag & _). pose proof (repl_get_ent s0 e x0 Hx0r) as Hx0.
+    assert (Hr0 : t0 <= r0) by (eapply (SN_le (SNof script)); eassumption).
     pose proof (sh_keep _ _ _ _ Hh _ _ _ Hs0) as Hkeep.
     assert (Hx : get_ent s e = Some x) by exact (repl_get_ent s e x Er).
     destruct (al_get k (se_comps x)) as [cc|] eqn:Ek; cbn [option_map].
